@@ -150,6 +150,11 @@ struct Snap {
 	std::vector<int> activeSub;				 // per state (regions), -1 invalid
 	std::vector<int> rawActive, rawResumable;	 // per composite region
 	bool transientClear = true;
+	// plans (only with HFSM2_ENABLE_PLANS)
+	struct TaskInfo { int origin, dest, kind, slot; bool payload; int tag; };
+	std::vector<std::vector<TaskInfo>> plans;  // per region id
+	std::vector<uint8_t> planExists;			 // per region id
+	std::vector<uint8_t> succMark, failMark;	 // per state
 };
 
 // ---------------------------------------------------------------------------------------------------
@@ -334,7 +339,7 @@ struct Engine {
 			case T_RESUME: ok = plan.resumeWith((hfsm2::StateID) o, (hfsm2::StateID) d, p); break;
 			case T_SCHEDULE: ok = plan.scheduleWith((hfsm2::StateID) o, (hfsm2::StateID) d, p); break;
 			}
-			e.rec(id, E_PLAN_APPEND, 0, -1, nullptr, kind, o, d, region * 2 + (ok ? 1 : 0));
+			e.rec(id, E_PLAN_APPEND, 0, tag, nullptr, kind, o, d, region * 2 + (ok ? 1 : 0));
 			return;
 		}
 #endif
@@ -457,7 +462,7 @@ struct Engine {
 		Globals& g = G();
 		const int alt = e.choose(id, m, 0, (int) g.menuPlanResult.size(), g.redPlanResult, false, N);
 		const Action& a = g.menuPlanResult[alt];
-		if (a.type == A_NONE) return true;
+		if (a.type == A_NONE) { e.rec(id, m == M_PLAN_SUCCEEDED ? E_SUCCEED : E_FAIL, 0, -1, nullptr, 1); return true; }  // a=1: propagated by the default handler
 		if (a.type == A_SWALLOW_REQ) issue(c, e, id, a.a, a.b);
 		return false;
 	}
@@ -699,6 +704,26 @@ struct Engine {
 				if (reg.compoRequested[c] != hfsm2::INVALID_PRONG) s.transientClear = false;
 			}
 			if (!transientOrthoClear()) s.transientClear = false;
+#if VT_PLANS
+			{
+				auto& pd = const_cast<typename Instance::PlanData&>(fsm->_core.planData);
+				s.plans.assign(VT_COUNTS.regions, {}); s.planExists.assign(VT_COUNTS.regions, 0);
+				s.succMark.assign(N, 0); s.failMark.assign(N, 0);
+				for (int r = 0; r < VT_COUNTS.regions; ++r) {
+					s.planExists[r] = pd.planExists.get((hfsm2::Short) r) ? 1 : 0;
+					int guard = 0;
+					for (hfsm2::Long i = pd.taskBounds[r].first; i != hfsm2::INVALID_LONG && guard < 64; i = pd.taskLinks[i].next, ++guard) {
+						const auto& t = pd.tasks[i];
+						Snap::TaskInfo ti{(int) t.origin, (int) t.destination, kindOf(t.type), (int) i, false, -1};
+#if VT_HAS_PAYLOAD
+						if (t.payload()) { ti.payload = true; ti.tag = payTag(*t.payload()); }
+#endif
+						s.plans[r].push_back(ti);
+					}
+				}
+				for (int i = 1; i < N; ++i) { s.succMark[i] = pd.tasksSuccesses.get((hfsm2::Short) i) ? 1 : 0; s.failMark[i] = pd.tasksFailures.get((hfsm2::Short) i) ? 1 : 0; }
+			}
+#endif
 			return s;
 		}
 		bool transientOrthoClear() const {
